@@ -126,10 +126,21 @@ class RZILTransformer(Transformer):
         return self.il_ops_holder.get_op_count()
 
     def add_op(self, op):
+        # Those have already a unique name. They are the same op whenever the name is the same.
+        keeps_name = (
+            isinstance(op, Variable)
+            or isinstance(op, Register)
+            or isinstance(op, ReturnValue)
+            or (isinstance(op, LocalVar) and op.value_type.group & VTGroup.HYBRID_LVAR)
+        )
         if op.get_name() in self.parameters:
             raise ValueError(f"Operand {op.get_name()} already defined as parameter.")
         elif self.il_ops_holder.has_op(op.get_name()):
-            return self.il_ops_holder.get_op_by_name(op.get_name())
+            known_op = self.il_ops_holder.get_op_by_name(op.get_name())
+            if keeps_name or known_op is op:
+                return known_op
+            # Every other op gets its id appended. A variable which happens to be
+            # named like it (seq, branch, ...) is something else.
 
         num_id = self.il_ops_holder.get_op_count()
         op.set_num_id(num_id)
@@ -138,15 +149,7 @@ class RZILTransformer(Transformer):
                 NotImplementedError(f"{op} can not be inlined yet.")
             op.inlined = True
 
-        if (
-            not isinstance(op, Variable)
-            and not isinstance(op, Register)
-            and not isinstance(op, ReturnValue)
-            and not (
-                isinstance(op, LocalVar) and op.value_type.group & VTGroup.HYBRID_LVAR
-            )
-        ):
-            # Those have already a unique name
+        if not keeps_name:
             op.set_name(f"{op.get_name()}_{num_id}")
         self.il_ops_holder.add_op(op)
         return op
